@@ -427,7 +427,14 @@ Warning: rounding to n-th business day not supported for input value");
 		switch (d.typ) {
 			unsigned int mdays;
 		case DT_YMD:
-			tgt = dur.durtyp == DT_DURYMD ? dur.ymd.m : dur.dv;
+			if (dur.durtyp == DT_DURYMD) {
+				tgt = dur.ymd.m;
+			} else if (dur.dv < 0) {
+				/* -Nmo, the direction is in FORW */
+				tgt = -dur.dv;
+			} else {
+				tgt = dur.dv;
+			}
 			forw = !dt_dur_neg_p(dur);
 
 			if ((forw && d.ymd.m < tgt) ||
